@@ -19,7 +19,7 @@ cargo build --offline --release 2>&1 | tail -1
 bash "$OUT/demo$N.sh" "$WT" > "$OUT/demo$N.clean.out" 2>&1; RC_CLEAN=$?
 tail -3 "$OUT/demo$N.clean.out"; echo "demo rc on clean tree: $RC_CLEAN"
 echo "== patched tree"
-git apply "$OUT/patch$N.diff" || { echo "RESULT: patch does not apply"; exit 1; }
+git apply --3way "$OUT/patch$N.diff" >/dev/null 2>&1 && git reset -q || { git reset -q --hard HEAD; echo "RESULT: patch does not apply"; exit 1; }
 cargo build --offline --release 2>&1 | tail -1
 /verif/tools/run_suite.sh "$WT" | tail -5; RC_SUITE=${PIPESTATUS[0]}
 bash "$OUT/demo$N.sh" "$WT" > "$OUT/demo$N.patched.out" 2>&1; RC_PATCH=$?
